@@ -389,6 +389,86 @@ func (lf *LenFlow) ResultLen(e ast.Expr, s S) (set string, off int64, rel, exact
 	return out.String(), n.c0, true, exact, true
 }
 
+// Window gives the part of X that e denotes under s, as symbolic bounds
+// [lo, hi) (constants or len(X)+k): X itself, a slice local last assigned a
+// window of X, or a slice expression of either.
+func (lf *LenFlow) Window(e ast.Expr, s S) (lo, hi LenSym, ok bool) {
+	e = ast.Unparen(e)
+	if !s.Has("L") {
+		return lo, hi, false
+	}
+	switch x := e.(type) {
+	case *ast.Ident:
+		if lf.isX(x) {
+			return LenSym{Kind: 'c'}, LenSym{Kind: 'l'}, true
+		}
+		if o := ObjOf(lf.info, x); o != nil {
+			if r := s.Get("w:" + VarID(o)); r != "" {
+				p := strings.SplitN(r, "|", 2)
+				a, ok1 := parseLenSym(p[0])
+				b, ok2 := parseLenSym(p[1])
+				return a, b, ok1 && ok2
+			}
+		}
+	case *ast.SliceExpr:
+		if x.Max != nil {
+			return lo, hi, false
+		}
+		blo, bhi, ok := lf.Window(x.X, s)
+		if !ok {
+			return lo, hi, false
+		}
+		add := func(a, b LenSym) (LenSym, bool) {
+			switch {
+			case a.Kind == 'c' && b.Kind == 'c':
+				return LenSym{Kind: 'c', C: a.C + b.C}, true
+			case a.Kind == 'l' && b.Kind == 'c':
+				return LenSym{Kind: 'l', K: a.K + b.C}, true
+			case a.Kind == 'c' && b.Kind == 'l':
+				return LenSym{Kind: 'l', K: b.K + a.C}, true
+			}
+			return LenSym{}, false
+		}
+		// bounds are relative to the base window; len(base) terms must be rewritten,
+		// so only bases that start at 0 may use len-relative bounds
+		rel := func(b ast.Expr) (LenSym, bool) {
+			v, ok := lf.EvalSym(b, s)
+			if !ok || (v.Kind != 'c' && v.Kind != 'l') {
+				return LenSym{}, false
+			}
+			if v.Kind == 'l' && !(lf.isX(x.X)) {
+				return LenSym{}, false // len(X)-relative bound inside a sub-window: not the window's own length
+			}
+			if v.Kind == 'l' {
+				return v, true // absolute already (base is X)
+			}
+			return add(blo, v)
+		}
+		lo, hi = blo, bhi
+		if x.Low != nil {
+			if lo, ok = rel(x.Low); !ok {
+				return lo, hi, false
+			}
+		}
+		if x.High != nil {
+			if hi, ok = rel(x.High); !ok {
+				return lo, hi, false
+			}
+		}
+		return lo, hi, true
+	}
+	return lo, hi, false
+}
+
+// WindowStrings renders Window in the notation of LenBounds ("17", "L-2").
+func (lf *LenFlow) WindowStrings(e ast.Expr, s S) (lo, hi string, ok bool) {
+	a, b, ok := lf.Window(e, s)
+	if !ok {
+		return "", "", false
+	}
+	return lenSymLin(a).String(), lenSymLin(b).String(), true
+}
+
 // LenNegInf is the MinLen of a signed integer in value mode.
 const LenNegInf = -lenInf
 
@@ -1632,6 +1712,15 @@ func (lf *LenFlow) node(n ast.Node, s S) []S {
 				if o == nil {
 					continue
 				}
+				// byte windows of X held in slice locals
+				if _, isIdent := ast.Unparen(l).(*ast.Ident); isIdent && o != lf.X && !lf.Value {
+					wk := "w:" + VarID(o)
+					if lo, hi, ok := lf.Window(y.Rhs[i], old); ok && (y.Tok == token.ASSIGN || y.Tok == token.DEFINE) && !lf.untrack[o] {
+						s = s.Set(wk, lo.repr()+"|"+hi.repr())
+					} else if s.Has(wk) {
+						s = s.Del(wk)
+					}
+				}
 				key := "n:" + VarID(o)
 				s2 := lf.bind(old, l, y.Rhs[i], y.Tok)
 				if s2.Has(key) {
@@ -1643,6 +1732,9 @@ func (lf *LenFlow) node(n ast.Node, s S) []S {
 		} else {
 			for _, l := range y.Lhs {
 				s = lf.bind(s, l, nil, token.ASSIGN)
+				if o := ObjOf(lf.info, l); o != nil && s.Has("w:"+VarID(o)) {
+					s = s.Del("w:" + VarID(o))
+				}
 			}
 		}
 	case *ast.IncDecStmt:
